@@ -175,6 +175,40 @@ Check C15_selects_lexed : forall (ps : list piece) (items : list item),
   filter not_pp (prep_text (render ps)) = map deliver (snd (select [] items)) ++ [eof_entry].
 Print Assumptions C15_selects_lexed.
 
+Theorem C15_unterminated_lexed : forall (ps : list piece) (items : list item) (p : partial),
+  forallb valid_piece_d ps = true -> not_merged ps = true ->
+  map LexPrepText.rtok_of_piece ps = render_items items ++ render_partial p ->
+  items_ok items = true -> partial_ok p = true ->
+  filter not_pp (prep_text (render ps))
+  = map deliver (snd (select [] items) ++ select_partial (fst (select [] items)) p)
+    ++ [(T_Error, 0, Some (ErrPrep PEUnterminated)); eof_entry].
+Proof. exact LexPrepText.unterminated_text_pieces. Qed.
+Check C15_unterminated_lexed : forall (ps : list piece) (items : list item) (p : partial),
+  forallb valid_piece_d ps = true -> not_merged ps = true ->
+  map LexPrepText.rtok_of_piece ps = render_items items ++ render_partial p ->
+  items_ok items = true -> partial_ok p = true ->
+  filter not_pp (prep_text (render ps))
+  = map deliver (snd (select [] items) ++ select_partial (fst (select [] items)) p)
+    ++ [(T_Error, 0, Some (ErrPrep PEUnterminated)); eof_entry].
+Print Assumptions C15_unterminated_lexed.
+
+Theorem C15_missing_name_lexed : forall (ps : list piece) (items : list item) dir gap rest,
+  forallb valid_piece_d ps = true -> not_merged ps = true ->
+  map LexPrepText.rtok_of_piece ps = render_items items ++ dir :: gap ++ rest ->
+  items_ok items = true -> missing_name dir gap rest = true ->
+  exists pre len post,
+    prep_text (render ps) = pre ++ (T_Error, len, Some (ErrPrep (missing_name_err dir))) :: post
+    /\ filter not_pp pre = map deliver (snd (select [] items)).
+Proof. exact LexPrepText.missing_name_text_pieces. Qed.
+Check C15_missing_name_lexed : forall (ps : list piece) (items : list item) dir gap rest,
+  forallb valid_piece_d ps = true -> not_merged ps = true ->
+  map LexPrepText.rtok_of_piece ps = render_items items ++ dir :: gap ++ rest ->
+  items_ok items = true -> missing_name dir gap rest = true ->
+  exists pre len post,
+    prep_text (render ps) = pre ++ (T_Error, len, Some (ErrPrep (missing_name_err dir))) :: post
+    /\ filter not_pp pre = map deliver (snd (select [] items)).
+Print Assumptions C15_missing_name_lexed.
+
 (** non-vacuity:  #ifndef A / class X; / #else / zz# / #endif / def Y;   (as pieces) *)
 Definition lx (k : TokenKind) (s : String.string) : piece := mkpiece k (cps s).
 Definition rt (k : TokenKind) (s : String.string) : rtok := LexPrepText.rtok_of_piece (lx k s).
